@@ -13,7 +13,7 @@ while read -r id; do
   [ -z "$id" ] && continue
   ok=0
   for i in 1 2 3; do
-    if PATH=/venv/bin:$PATH PYTHONPATH=$W timeout 1200 /venv/bin/python -m pytest -q -p no:cacheprovider -p no:xdist --timeout=900 "$id" >/dev/null 2>&1; then ok=1; break; fi
+    if PATH=/venv/bin:$PATH PYTHONPATH=$W timeout 1200 /venv/bin/python -m pytest -q -p no:cacheprovider -n 1 --timeout=900 "$id" >/dev/null 2>&1; then ok=1; break; fi
   done
   if [ $ok = 1 ]; then echo "flaky under load, passes alone: $id"; else echo "FAILS ALONE: $id"; RC=1; fi
 done < $L.ids
